@@ -409,6 +409,8 @@ def check(model, rep):
     sx.opaque_calls |= OPAQUE
     check_pure(model, rep)
     from sa.forwarding import check_forwarding
+    from sa.forwarding import check_trig
+    check_trig(model, rep, 'C09.trig')
     check_forwarding(model, rep, 'C09.forwarding', ('tangential_force', 'bending_stress', 'contact_stress', 'module', 'face_width', 'elastic_modulus', 'reference_diameter', 'n_teeth', 'mating_role', 'drives', 'driven_by', 'load_torque', 'driving_torque', 'tangential_force_is_computable', 'bending_stress_is_computable', 'contact_stress_is_computable'))
     check_force(model, rep, sx)
     check_bending(model, rep, sx)
